@@ -231,7 +231,7 @@ fn ty_example(
                 let value = transformer.resolve(f.id)?;
                 fields.push(value)
             }
-            Ok(quote!(( #(#fields),* )))
+            Ok(quote!(( #(#fields,)* )))
         }
         scale_info::TypeDef::Primitive(def) => Ok(primitive_example(
             def,
